@@ -4,23 +4,24 @@ import importlib, json, os, sys
 HERE = os.path.dirname(os.path.abspath(__file__))
 sys.path.insert(0, HERE)
 
+AI = "abstract interpretation of the function's MIR over opaque tokens and small integers, case-split by an oracle that answers what the environment decides (K6'), compared with a table written from the property text"
 TECH = {
-    "C01": "MIR comparison truth tables + field-coverage + accounting dominance",
-    "C02": "MIR dominance, provenance and comparison truth tables (custom rustc_private driver)",
-    "C03": "interprocedural call-site dominance (ensures fixpoint) + finite path evaluation over MIR",
-    "C05": "finite path evaluation + provenance over MIR",
-    "C06": "bottom-up effect summaries (Mutate/MayCommit) + who-may-write over MIR",
-    "C07": "finite path evaluation + who-may-write (field, table) over MIR",
-    "C08": "provenance / bound-kind analysis over MIR",
-    "C09": "guard dominance + panic-site audit over MIR",
-    "C10": "option-field typestate + finite path evaluation over MIR",
-    "C11": "finite path evaluation of the coordination automaton + who-may-write over MIR",
-    "C12": "who-may-call + edge dominance + provenance over MIR",
-    "C13": "control-dependence, comparison truth tables, type-shape checks over MIR",
-    "C14": "effect-based gate dominance + finite path evaluation over MIR",
-    "C15": "finite path evaluation + must-pass-through + literal agreement over MIR",
-    "C16": "program-derived exhaustiveness (tables) + provenance + discarded-result analysis over MIR",
-    "C17": "finite path evaluation + provenance over MIR",
+    "C01": "MIR comparison truth tables + field coverage + accounting placement (scope / dominance); put/Record order by " + AI,
+    "C02": AI + " (put admission/prune, Record order) + provenance/dominance rules for the prefix bounds (custom rustc_private driver)",
+    "C03": "interprocedural call-site dominance (ensures fixpoint), who-may-construct; validate_entry/validate_empty acceptance tables by " + AI,
+    "C05": AI + " (index selection, selector, full query window over QueryIterator::next with persistent state, stale-index scan) + provenance rules",
+    "C06": "bottom-up effect summaries (Mutate/MayCommit) + who-may-write / who-may-commit over MIR",
+    "C07": AI + " (merge table, import transaction, actor import handler, secret_key) + who-may-write (field, table)",
+    "C08": AI + " (get_range scans and bounds, fingerprint fold, get_first) + key-shape / component-map provenance",
+    "C09": AI + " with a byte-buffer model in which an out-of-bounds index or failed unwrap diverges (decoder and encoder grids) + panic-site audit + tag agreement",
+    "C10": AI + " with awaits driven to completion: acceptor and initiator sessions over all frame scripts up to a bound, into_outcome on every final state; + gate table + panic-site audit",
+    "C11": AI + " (four transition tables, tie-break) + who-may-write + dominance rules in the live actor",
+    "C12": "who-may-call + edge dominance + provenance over MIR; per-subscriber delivery future by " + AI,
+    "C13": "control dependence of the head write; news predicate, insert-keeps-maximum and bounded newest-first encoding by " + AI + " (abstract collections)",
+    "C14": "effect-based gate dominance + who-may-call; gates and open/close counting by " + AI,
+    "C15": AI + " (matches normal form, set_download_policy transaction) + literal agreement + who-may-write",
+    "C16": "program-derived exhaustiveness over the fields of Tables + provenance lifted to the API parameter + discarded-result analysis; namespace bounds by " + AI,
+    "C17": AI + " (registration simulated on every table size and position) + constant evaluation + reverse-iteration rule",
     "C18": "sibling agreement (provenance), loop must-pass-through, path evaluation over MIR",
 }
 NA = {
@@ -72,7 +73,7 @@ def main():
             {"name": "mirfacts", "path": "mirfacts/", "serves_properties": [c["property_id"] for c in checks],
              "kind_free_text": "nightly rustc_private driver injected via RUSTC_WORKSPACE_WRAPPER under cargo +nightly check; dumps mir_built of every body of the iroh_docs lib crate as JSON facts (resolved callees, types, CFG, spans, expansion info)"},
             {"name": "rules", "path": "rules/", "serves_properties": [c["property_id"] for c in checks],
-             "kind_free_text": "Python rule library over the facts: CFG/dominators, provenance (def-use), edge dominance, ensures-fixpoint, effect summaries, finite path evaluation (K6), table identification by type"},
+             "kind_free_text": "Python rule library over the facts: CFG/dominators, provenance (def-use), edge dominance, ensures-fixpoint, effect summaries, finite path evaluation (K6), abstract interpreter over MIR with oracle-driven case split (K6', feval.py: tokens, small integers, heap, closures, Option/Result, awaits driven to completion, abstract collections), table identification by type"},
         ],
         "checks": checks,
         "not_applicable": na,
